@@ -39,14 +39,14 @@ class IoProgram(Program):
             if f.name.startswith('reader::<impl') and '{closure' not in f.name and 'promoted' not in f.name:
                 if last == 'read' and args == ["&mut Reader<'_>"] and f.ret != 'T':
                     self.readable[f.ret] = f
-                elif args and args[0] in ("&mut Reader<'_>", 'Box<dyn std::io::Read>'):
+                elif not args or args[0] in ("&mut Reader<'_>", "&Reader<'_>", 'Box<dyn std::io::Read>'):
                     self.reader_fns[last] = f
             if f.name.startswith('writer::<impl') and 'promoted' not in f.name:
                 if last == 'write' and len(args) == 2 and args[1] == "&mut Writer<'_>":
                     self.writable[strip_ref(args[0])] = f
                 elif last == 'drop':
                     self.writer_fns['drop'] = f
-                elif args and args[0] in ("&mut Writer<'_>", 'Box<dyn std::io::Write>'):
+                elif not args or args[0] in ("&mut Writer<'_>", "&Writer<'_>", 'Box<dyn std::io::Write>'):
                     self.writer_fns[last] = f
         self.resolvers.append(IoProgram._resolve)
         self.const_resolvers.append(IoProgram._const)
@@ -419,6 +419,10 @@ def install_models(P):
 
 
 # ------------------------------------------------------------------ environments
+
+    from .stdmodel import install_std_models
+    install_std_models(P)
+
 class ReadEnv:
     """<Box<dyn Read>>::read stub: forks over every admissible chunk length; Ok(0) only at end of input;
     optionally Err(Interrupted) before a call (at most `faults` times, never twice in a row more than `faults`)."""
